@@ -112,6 +112,7 @@ func (h *H[T]) C10(rc *runCtx) *Violation {
 	putHist := map[int]putRec{} // by object number of the header that went into the pool
 	serial := 0
 	gcSinceEmpty := false
+	acceptedPuts := 0
 
 	// crosstalk runs f, which may write through hb only, and checks that no
 	// other outstanding buffer changed (oracle 2: no shared storage).
@@ -166,8 +167,11 @@ func (h *H[T]) C10(rc *runCtx) *Violation {
 			}
 			return v
 		}
-		if rec, ok := putHist[id]; ok {
+		if acceptedPuts > 0 {
+			// the reuse path had its chance: something was put back before this Get
 			rc.nontrivial = true
+		}
+		if rec, ok := putHist[id]; ok {
 			rc.probes[pReuse]++
 			if rec.hs.appendedSample {
 				rc.probes[pReuseAfterAppendSample]++
@@ -236,6 +240,7 @@ func (h *H[T]) C10(rc *runCtx) *Violation {
 			rc.probes[pRejectedPut]++
 			sim.Tracef("    Put rejected: %v", pv)
 		} else {
+			acceptedPuts++
 			putHist[id] = putRec{hb.hs, handle}
 			if sim.Available() > 0 {
 				gcSinceEmpty = false
